@@ -128,6 +128,11 @@ func c06Less(a, b string) bool { // coordinate-wise lexicographic order of two e
 
 // ---------------------------------------------------------------------------------------------- executor
 
+// ops that write their result into a receiver distinct from the operands: `dirty <d> <op> <args…>` runs them with every
+// such receiver pre-loaded with the full element d instead of the Go zero value
+var c06DirtyOps = map[string]bool{"exp": true, "cycexp": true, "expglv": true, "fixed": true, "frob": true, "invu": true,
+	"sqrt": true, "select": true, "nrrt": true, "ksq": true, "kbatch": true}
+
 func execC06(a []string) string {
 	if len(a) < 3 {
 		return "bad-op"
@@ -137,12 +142,35 @@ func execC06(a []string) string {
 	if t == nil || ty == "Element" {
 		return "bad-op"
 	}
+	var dirt reflect.Value // valid: the previous contents of every receiver
+	if op == "dirty" {
+		if len(args) < 2 || !c06DirtyOps[args[1]] {
+			return "bad-op"
+		}
+		d, ok := c06Parse(t, args[0])
+		if !ok {
+			return "bad-op"
+		}
+		dirt, op, args = d, args[1], args[2:]
+	}
+	recvs := 0
+	recv := func() reflect.Value { // a receiver: fresh zero value, or holding garbage (d, d², d³, … for successive receivers)
+		z := reflect.New(t)
+		if dirt.IsValid() {
+			z.Elem().Set(dirt.Elem())
+			for i := 0; i < recvs; i++ {
+				z.MethodByName("Mul").Call([]reflect.Value{z, dirt})
+			}
+			recvs++
+		}
+		return z
+	}
 	un := func(m string, tok string) string { // z.m(&x)
 		x, ok := c06Parse(t, tok)
 		if !ok || !c06Has(t, m) {
 			return "bad-op"
 		}
-		z := reflect.New(t)
+		z := recv()
 		z.MethodByName(m).Call([]reflect.Value{x})
 		return c06Show(z)
 	}
@@ -157,7 +185,7 @@ func execC06(a []string) string {
 		if !ok || !ok2 {
 			return "bad-op"
 		}
-		z := reflect.New(t)
+		z := recv()
 		z.MethodByName(m).Call([]reflect.Value{x.Elem(), reflect.ValueOf(k)})
 		return c06Show(z)
 	case "fixed":
@@ -192,7 +220,7 @@ func execC06(a []string) string {
 		if !ok {
 			return "bad-op"
 		}
-		z, nz := reflect.New(t), reflect.New(t)
+		z, nz := recv(), recv()
 		z.MethodByName("Sqrt").Call([]reflect.Value{x})
 		nz.MethodByName("Neg").Call([]reflect.Value{z})
 		s, ns := c06Show(z), c06Show(nz)
@@ -229,7 +257,7 @@ func execC06(a []string) string {
 		if !ok0 || !ok || !ok2 || !c.IsInt64() {
 			return "bad-op"
 		}
-		z := reflect.New(t)
+		z := recv()
 		z.MethodByName("Select").Call([]reflect.Value{reflect.ValueOf(int(c.Int64())), x, y})
 		return c06Show(z)
 	case "nrrt": // MulByNonResidue(MulByNonResidueInv(x)) and MulByNonResidueInv(MulByNonResidue(x))
@@ -240,7 +268,7 @@ func execC06(a []string) string {
 		if !ok {
 			return "bad-op"
 		}
-		a, b := reflect.New(t), reflect.New(t)
+		a, b := recv(), recv()
 		a.MethodByName("MulByNonResidueInv").Call([]reflect.Value{x})
 		a.MethodByName("MulByNonResidue").Call([]reflect.Value{a})
 		b.MethodByName("MulByNonResidue").Call([]reflect.Value{x})
@@ -271,6 +299,28 @@ func execC06(a []string) string {
 		if err != nil || !ok || n < 0 || n > 999 {
 			return "bad-op"
 		}
+		if dirt.IsValid() {
+			// the compressed value is produced into a receiver that held a full element (its g0 / g4 slots keep that
+			// garbage), then decompressed into another dirty receiver AND in place: both must be the element
+			z := x
+			if n > 0 {
+				z = recv()
+				z.MethodByName("CyclotomicSquareCompressed").Call([]reflect.Value{x})
+				for i := 1; i < n; i++ {
+					z.MethodByName("CyclotomicSquareCompressed").Call([]reflect.Value{z})
+				}
+			}
+			w := recv()
+			w.MethodByName("DecompressKarabina").Call([]reflect.Value{z})
+			sw := c06Show(w)
+			if n > 0 {
+				z.MethodByName("DecompressKarabina").Call([]reflect.Value{z})
+				if sz := c06Show(z); sz != sw {
+					return "receiver-dependent " + sw + " " + sz
+				}
+			}
+			return sw
+		}
 		for i := 0; i < n; i++ {
 			x.MethodByName("CyclotomicSquareCompressed").Call([]reflect.Value{x})
 		}
@@ -288,6 +338,16 @@ func execC06(a []string) string {
 		}
 		for i := 0; i < xs.Len(); i++ {
 			x := xs.Index(i).Addr()
+			if dirt.IsValid() && n > 0 { // the slot of the batch held a full element before the first compressed squaring
+				src := reflect.New(t)
+				src.Elem().Set(x.Elem())
+				x.Elem().Set(recv().Elem())
+				x.MethodByName("CyclotomicSquareCompressed").Call([]reflect.Value{src})
+				for j := 1; j < n; j++ {
+					x.MethodByName("CyclotomicSquareCompressed").Call([]reflect.Value{x})
+				}
+				continue
+			}
 			for j := 0; j < n; j++ {
 				x.MethodByName("CyclotomicSquareCompressed").Call([]reflect.Value{x})
 			}
@@ -893,6 +953,50 @@ func (e *c06Env) genLevel(ty string) {
 		e.emit(ty, "mulacc", e.rand(ty), "2", "5", "7", e.rand(ty))
 		e.emit(ty, "mulacc", e.rand(ty), "4", "5", "7", "1", "0")
 	}
+	// ---- DIRTY RECEIVERS: every method above that writes into a receiver distinct from its operands, re-run with the
+	// receiver holding an arbitrary full element (random, sparse, 1) before the call: the result may not depend on it
+	dirts := []string{e.rand(ty), e.sparse(ty), e.one(ty)}
+	nd := 0
+	dirty := func(op string, args ...string) {
+		e.emit(ty, "dirty", append([]string{dirts[nd%len(dirts)], op}, args...)...)
+		nd++
+	}
+	if c06Has(t, "Exp") {
+		ks := []*big.Int{big.NewInt(0), big.NewInt(1), big.NewInt(-1), big.NewInt(2), g.rng.bigBits(64), new(big.Int).Neg(g.rng.bigBits(70))}
+		if !(e.heavy && n >= 12) || g.thorough() {
+			ks = append(ks, g.rng.bigBits(130))
+		}
+		for i, k := range ks {
+			dirty("exp", elems[i%len(elems)], hexBig(k))
+		}
+		dirty("exp", e.rand(ty), hexBig(g.rng.bigBits(20)))
+	}
+	for _, i := range []string{"1", "2", "3", "4"} {
+		if !c06Has(t, c06FrobNames[i]) {
+			continue
+		}
+		dirty("frob", i, e.rand(ty))
+		dirty("frob", i, e.sparse(ty))
+		if !e.heavy || !top || g.thorough() {
+			dirty("frob", i, e.one(ty))
+			dirty("frob", i, e.zero(ty))
+		}
+	}
+	if c06Has(t, "Sqrt") {
+		for _, y := range []string{e.rand(ty), e.sparse(ty), e.zero(ty), e.one(ty), e.block(ty, 0, 1), e.block(ty, n-1, n)} {
+			dirty("sqrt", e.call1(ty, "Square", y), y)
+		}
+	}
+	if c06Has(t, "Select") {
+		for _, c := range []string{"0", "1", "-1", "100000000"} {
+			dirty("select", c, e.rand(ty), e.rand(ty))
+		}
+	}
+	if c06Has(t, "MulByNonResidueInv") {
+		for _, x := range []string{e.rand(ty), e.sparse(ty), e.zero(ty), e.one(ty)} {
+			dirty("nrrt", x)
+		}
+	}
 }
 
 func (e *c06Env) genTop() {
@@ -937,6 +1041,32 @@ func (e *c06Env) genTop() {
 			e.emit(ty, "fixed", name, x)
 		}
 	}
+	// ---- DIRTY RECEIVERS (see genLevel): receiver pre-loaded with a random element, a cyclotomic element, a GT element, 1
+	dirts := []string{e.rand(ty), cyc[nc-1], gts[nc-1], e.sparse(ty), one}
+	nd := 0
+	dirty := func(op string, args ...string) {
+		e.emit(ty, "dirty", append([]string{dirts[nd%len(dirts)], op}, args...)...)
+		nd++
+	}
+	for i, k := range []*big.Int{big.NewInt(0), big.NewInt(1), big.NewInt(-1), g.rng.bigBits(64), new(big.Int).Neg(g.rng.bigBits(70)), new(big.Int).Sub(r, big.NewInt(1)), new(big.Int).Set(r)} {
+		if small && i%2 == 1 {
+			continue
+		}
+		dirty("cycexp", cyc[i%nc], hexBig(k))
+		dirty("expglv", gts[i%nc], hexBig(k))
+	}
+	dirty("cycexp", one, hexBig(g.rng.bigBits(64)))
+	dirty("expglv", one, hexBig(g.rng.bigBits(64)))
+	for _, name := range e.fixedNames() {
+		dirty("fixed", name, cyc[0])
+		dirty("fixed", name, one)
+		if !small {
+			dirty("fixed", name, gts[1])
+		}
+	}
+	dirty("invu", uni[0])
+	dirty("invu", cyc[1])
+	dirty("invu", one)
 	// ---- InverseUnitary
 	for i := 0; i < nc; i++ {
 		e.emit(ty, "invu", uni[i])
@@ -1055,6 +1185,59 @@ func (e *c06Env) genTop() {
 			e.emit(ty, "kbatch", "1", one, one, one)
 			e.emit(ty, "kbatch", "0", cyc[0], one, cyc[1])
 			e.emit(ty, "kbatch", "3", cyc[1], gts[0])
+		}
+		// DIRTY RECEIVERS: the compressed form determines the element - the slots a compressed squaring does not write
+		// (g0, g4) keep what the receiver held and must not influence the decompression.  Degenerate operands (1: g2 = g3 =
+		// 0; Y with g3 = 0 resp. g5 = 0 after the squaring; X with the zero coordinate itself) and generic ones, through
+		// DecompressKarabina (separate receiver and in place) and BatchDecompressKarabina (every position, mixed batches).
+		degen := append([]string{one}, ys...)
+		operands := append(append([]string{}, degen...), cyc[0], cyc[1], gts[0])
+		for _, x := range operands {
+			for _, n := range []int{1, 2, 3} {
+				for rep := 0; rep < 2; rep++ { // two kinds of garbage each
+					dirty("ksq", strconv.Itoa(n), x)
+				}
+			}
+		}
+		for _, x := range append(append([]string{}, xs0...), one, cyc[0], gts[1]) {
+			dirty("ksq", "0", x) // z.DecompressKarabina(&x), z dirty
+			dirty("ksq", "0", x)
+		}
+		if hasBatch {
+			for l := 1; l <= 4; l++ {
+				for z := 0; z < l; z++ { // a degenerate entry at every position among generic ones
+					for _, d := range degen {
+						xs := make([]string, l)
+						for i := range xs {
+							xs[i] = cyc[g.rng.intn(nc)]
+							if i == z {
+								xs[i] = d
+							}
+						}
+						dirty("kbatch", append([]string{strconv.Itoa(1 + g.rng.intn(2))}, xs...)...)
+						if e.heavy && !g.thorough() {
+							break
+						}
+					}
+				}
+				// all degenerate / all generic / random mix
+				xs := make([]string, l)
+				for i := range xs {
+					xs[i] = degen[i%len(degen)]
+				}
+				dirty("kbatch", append([]string{"1"}, xs...)...)
+				for i := range xs {
+					xs[i] = cyc[i%nc]
+				}
+				dirty("kbatch", append([]string{"1"}, xs...)...)
+				for i := range xs {
+					xs[i] = operands[g.rng.intn(len(operands))]
+				}
+				dirty("kbatch", append([]string{"2"}, xs...)...)
+			}
+			dirty("kbatch", "1", one, one, one)
+			dirty("kbatch", "1", one, one, one)
+			dirty("kbatch", "3", one, cyc[0], one)
 		}
 	}
 	// ---- torus compression
